@@ -167,6 +167,18 @@ def writer_conformance(args):
             M.append("b " + " ".join(map(str, lens + [13])))
             if dur != "-":
                 M.append("p " + dur)
+        elif c < 0.85:
+            # a clear record (Start 13 + Clear 9 + End 13 bytes), often directly between two persists
+            if r.random() < 0.5:
+                m = r.choice(["buffer", "data", "all"])
+                L.append("persist " + m)
+                M.append("p " + m)
+            L.append("clear h0")
+            M.append("b 13 9 13")
+            if r.random() < 0.7:
+                m = r.choice(["buffer", "data", "all"])
+                L.append("persist " + m)
+                M.append("p " + m)
         else:
             m = r.choice(["buffer", "data", "all"])
             L.append("persist " + m)
@@ -187,6 +199,37 @@ def writer_conformance(args):
         shutil.rmtree(wd, ignore_errors=True)
 
 
+def rotation_powerloss(variant):
+    """data written before a journal rotation: > 64 MB of traffic seals 0.jnl (kept alive by a lagging keyspace); later a
+    persist(SyncAll) is acknowledged; power loss = every journal cut back to its last synced extent; reopen must show all"""
+    manual = variant == 1
+    mp = " manualp=1" if manual else ""
+    L = ["open plain jcomp=none" + (" manual=1" if manual else ""), "arm", "ks h0 hot" + mp, "ks h1 cold" + mp, "put h1 63 01",
+         "batch - h1:p:65:03 h0:p:65:03", "bigfill h0 66 1024 t0", "rotate h0", "drain", "info", "put h1 64 02",
+         "persist %s" % ("data" if variant == 2 else "all"), "put h1 66 ff", "exit 0"]
+    prog = "\n".join(L) + "\n"
+    wd = workdir()
+    try:
+        db = C.fresh(wd)
+        o, raw, rc = run_fjv(prog, dbdir=db, env_extra=C.shim_env(db, wd), timeout=300)
+        evs = C.read_log(wd)
+        written, synced = synced_extents(evs)
+        lost = powerloss_image(db, evs)
+        njournals = len([f for f in os.listdir(db) if f.endswith(".jnl")])
+        o2, raw2, rc2 = run_fjv("open plain\nks h1 cold\nscan - h1 fwd all\nks h0 hot\nget - h0 65\n", dbdir=db, timeout=120)
+        got = o2.get(3) or ""
+        ok = o.get(12) == "ok" and o2.get(1) == "ok" and got.startswith("63=01,64=02,65=03") and o2.get(5) == "some 03"
+        if njournals < 2:
+            return dict(problem=None, effective=False, lost=lost)
+        if not ok:
+            return dict(problem="persist acknowledged (%s) after a journal rotation, then power loss: cold = %s (expected 63=01,64=02,65=03[,66=ff]), "
+                                "hot 65 = %s, open = %s; written/synced per journal: %s / %s"
+                                % (o.get(12), got, o2.get(5), o2.get(1), dict(written), synced), prog=prog, effective=True, lost=lost)
+        return dict(problem=None, effective=True, lost=lost)
+    finally:
+        shutil.rmtree(wd, ignore_errors=True)
+
+
 def run(rep, tier, seed, build):
     from common import proof_audit, TRUSTED_BASE
     obl, dis, pproblems = proof_audit("props/C09.v", THEOREMS, build["coq"])
@@ -196,6 +239,9 @@ def run(rep, tier, seed, build):
                       % (x["got"], x["want"], x["prog"]))
     n = 24 if tier == "quick" else 400
     results = pmap(pl_workload, [(i, seed, tier) for i in range(n)])
+    rp = pmap(rotation_powerloss, [0] if tier == "quick" else [0, 1, 2], workers=3)
+    for x in [x for x in rp if x["problem"]][:1]:
+        rep.violation("# C09: %s\n# (shim log -> every *.jnl cut back to its last synced extent -> reopen)\n%s" % (x["problem"], x["prog"]))
     tc = trace_conformance((0, seed))
     if tc:
         rep.violation("# C09: journal syscall trace differs from the Writer model for manual persist\n# got:  %s\n# want: %s\n" % (tc[1], tc[2]))
@@ -216,6 +262,7 @@ def run(rep, tier, seed, build):
                              "the recovered state must be a prefix state at or after the last sync-acknowledged operation; plus one "
                              "syscall-trace conformance scenario; non-trivial = workload with at least one sync-level persist",
                         samples=[r_["sample"] for r_ in results if r_.get("sample")][:3], workloads=n, powerloss_points=runs,
+                        rotation_powerloss_scenarios=len(rp), rotation_powerloss_effective=sum(1 for x in rp if x["effective"]),
                         unsynced_bytes_dropped=sum(r_["lost_bytes"] for r_ in results),
                         journal_syscall_histogram=dict(calls), disagreements_checked=len(bad) + len(wc),
                         obligations=obl, discharged=dis if not pproblems else min(dis, obl - 1),
